@@ -67,3 +67,19 @@ def observe(msg):
         'labels': [[str(d) for d in ds] for ds in td.decoded_descriptors_all_subsets],
         'links': [dict(l) for l in td.bitmap_links_all_subsets],
     }
+
+
+def norm_json(x):
+    """what a user gets after json.dumps(render, **JSON_DUMPS_KWARGS)"""
+    import json
+    return json.loads(json.dumps(x, **pbk_utils.JSON_DUMPS_KWARGS))
+
+
+def nested_template_data(msg):
+    """the per-subset hierarchical view (nested JSON) of a wired message"""
+    nj = NestedJsonRenderer().render(msg)
+    for sec in nj:
+        for par in sec:
+            if par['name'] == 'template_data':
+                return norm_json(par['value'])
+    return None
